@@ -77,18 +77,18 @@ End Sufficient.
 (* bytes forms: EVERY byte sequence comes back unchanged; string forms: every valid
    UTF-8 text comes back unchanged *)
 Theorem unquote_quote_bytes_forms : forall wrap pr_tbl gr_tbl f s,
-  public_form f -> f_exact f = true -> is_bytes s -> ~ autohash_bad pr_tbl gr_tbl f s ->
+  public_form f -> f_exact f = true -> is_bytes s ->
   unquote wrap (quote pr_tbl gr_tbl f s) = Ok s.
 Proof.
-  intros wrap pr gr f s Hp He Hb Hn. rewrite unquote_quote_when by assumption.
+  intros wrap pr gr f s Hp He Hb. rewrite unquote_quote_all by assumption.
   unfold expected. now rewrite He.
 Qed.
 
 Theorem unquote_quote_string_forms : forall wrap pr_tbl gr_tbl f s,
-  public_form f -> is_bytes s -> valid_utf8 s -> ~ autohash_bad pr_tbl gr_tbl f s ->
+  public_form f -> is_bytes s -> valid_utf8 s ->
   unquote wrap (quote pr_tbl gr_tbl f s) = Ok s.
 Proof.
-  intros wrap pr gr f s Hp Hb Hv Hn. rewrite unquote_quote_when by assumption.
+  intros wrap pr gr f s Hp Hb Hv. rewrite unquote_quote_all by assumption.
   unfold expected. destruct (f_exact f); [reflexivity|]. now rewrite sanitize_valid.
 Qed.
 
@@ -96,24 +96,16 @@ Qed.
 
 Definition s_of (l : list N) : str := l.
 
-(* WithOptionalHashes on a text starting with two quotes: # q q q x q # is read as the
-   opening of a multi-line string *)
-Example autohash_witness : forall pr gr,
-  quote pr gr (with_optional_hashes string_form) [34; 34; 120] = [35; 34; 34; 34; 120; 34; 35] /\
-  unquote_impl (quote pr gr (with_optional_hashes string_form) [34; 34; 120]) = Err EMissingOpeningNewline.
-Proof. intros. split; vm_compute; reflexivity. Qed.
-
-Theorem unquote_quote_refuted : exists f s,
-  public_form f /\ is_bytes s /\ valid_utf8 s /\
-  forall pr gr wrap, unquote wrap (quote pr gr f s) <> Ok s.
-Proof.
-  exists (with_optional_hashes string_form), [34; 34; 120]. repeat split.
-  - left. split; reflexivity.
-  - repeat constructor.
-  - change [34; 34; 120] with (utf8_encode 34 ++ utf8_encode 34 ++ utf8_encode 120 ++ []).
-    repeat (constructor; [unfold scalar, max_rune; lia|]). constructor.
-  - intros pr gr wrap. destruct wrap; vm_compute; discriminate.
-Qed.
+(* regression witnesses of fix autohash: WithOptionalHashes on a text starting with two
+   quotes uses regular quoting (the raw hash form  # q q q x q #  would be read as
+   the opening of a multi-line string); a text starting with ONE quote keeps the hash form *)
+Example autohash_lead_quotes : forall pr gr,
+  quote pr gr (with_optional_hashes string_form) [34; 34; 120] = [34; 92; 34; 92; 34; 120; 34] /\
+  unquote_impl (quote pr gr (with_optional_hashes string_form) [34; 34; 120]) = Ok [34; 34; 120] /\
+  quote pr gr (with_optional_hashes string_form) [34; 34; 35] = [34; 92; 34; 92; 34; 35; 34] /\
+  quote pr gr (with_optional_hashes string_form) [34; 120] = [35; 34; 34; 120; 34; 35] /\
+  unquote_impl [35; 34; 34; 34; 120; 34; 35] = Err EMissingOpeningNewline.
+Proof. intros. repeat split; vm_compute; reflexivity. Qed.
 
 (* what fix unquote-U removed: with \U escapes accumulated in an int32, values
    >= 2^31 became negative runes *)
@@ -138,7 +130,7 @@ Proof. eexists. exact (proj1 unquote_int32_panics). Qed.
 Example ex_hash_form : forall pr gr,
   let f := with_optional_hashes string_form in
   let s := [97; 34; 35; 98] in
-  eff_multiline f s = false /\ eff_hash pr gr f s = 2%nat /\ lead2 (f_quote f) s = false /\
+  eff_multiline f s = false /\ eff_hash pr gr f s = 2%nat /\
   quote pr gr f s = [35; 35; 34; 97; 34; 35; 98; 34; 35; 35] /\
   unquote_impl (quote pr gr f s) = Ok s.
 Proof. intros. repeat split; vm_compute; reflexivity. Qed.
@@ -163,11 +155,10 @@ Example ex_string_lossy : forall pr gr,
 Proof.
   intros pr gr s. subst s. split; [|split; vm_compute; reflexivity].
   (* pr 0xFFFD is unknown: both spellings (raw U+FFFD or the u-escape) read back the same *)
-  unfold unquote_impl. rewrite (unquote_quote_when false pr gr string_form [97; 255; 98]).
+  unfold unquote_impl. rewrite (unquote_quote_all false pr gr string_form [97; 255; 98]).
   - vm_compute. reflexivity.
   - split; [reflexivity|left; split; reflexivity].
   - repeat constructor.
-  - intros [_ [H _]]. apply H. reflexivity.
 Qed.
 
 Example ex_plain_hypotheses : plain 34 2 [34; 35; 35] [97; 34; 35; 98].
